@@ -47,8 +47,11 @@ def registry_ok(names, behs, ks, fi, typed, v):
     with fresh_registry() as fc:
         model = {}
         f = POOL[fi]
+        # one element instance that lives through all registrations (a validator / checker remembered on the instance
+        # would show here), next to the fresh one built by every _check_once
+        keep = String(format=f) if typed else Element(format=f)
         # a first validation BEFORE any registration (the name may be unknown at that point)
-        if not _check_once(f, typed, v, model):
+        if not _check_once(f, typed, v, model, keep):
             return False
         for i in range(len(names)):
             name = POOL[names[i]]
@@ -62,16 +65,18 @@ def registry_ok(names, behs, ks, fi, typed, v):
             fc.register(name)(fn)
             model[name] = (beh, k)
             # ... and after every registration
-            if not _check_once(f, typed, v, model):
+            if not _check_once(f, typed, v, model, keep):
                 return False
         return True
 
 
-def _check_once(f, typed, v, model):
+def _check_once(f, typed, v, model, keep=None):
+    if keep is not None and not _check_once(f, typed, v, model, None) :
+        return False
     import warnings
     from vf.common import String, Element, accepts
 
-    el = String(format=f) if typed else Element(format=f)
+    el = keep if keep is not None else (String(format=f) if typed else Element(format=f))
     if isinstance(v, str) and f not in model and f in ("uuid", "date-time"):
         return True  # the built-in checker decides: subject of the built-in harnesses (uuid.py / dateutil on a symbolic str do not exhaust)
     with warnings.catch_warnings(record=True) as w:
@@ -158,6 +163,9 @@ def harnesses(ctx) -> List[H]:
                              covers=f"{K} registrations over names {POOL} x behaviours (True, False, len>k), then {'String' if typed else 'Element'}(format={POOL[fi]!r}) on any JSON value"))
     hs.append(mk("c16_registry_k0", f"fi: int, typed: bool, v: {VAL}", ["0 <= fi < 7"] + VPRE, "return registry_ok([], [], [], fi, typed, v)", timeout=300, group="registry",
                  covers="no registration: unregistered names warn-and-accept"))
+    hs.append(mk("c16_reregister_same_element", f"fi: int, typed: bool, b1: int, b2: int, k1: int, k2: int, v: {VAL}", ["0 <= fi < 7", "0 <= b1 < 3", "0 <= b2 < 3"] + VPRE,
+                 "return registry_ok([fi, fi], [b1, b2], [k1, k2], fi, typed, v)", timeout=300, group="registry",
+                 covers="the SAME name registered twice with different behaviours; one element instance validated before, between and after: the latest registration decides"))
     hs.append(mk("c16_symbolic_name", "c: str, beh: bool, v: str", ["len(c) == 1", "len(v) <= 2"], "return symbolic_name_ok(c, beh, v)", timeout=200, group="registry", expect="unknown", tier="thorough",
                  covers="format name = any 1-char string (dict lookup realises the name)"))
     hs.append(mk("c16__reject", f"names: List[int], behs: List[int], ks: List[int], fi: int, v: str", ["len(names) == 1", "len(behs) == 1", "len(ks) == 1", "0 <= names[0] < 7", "0 <= behs[0] < 3", "0 <= fi < 7", "len(v) <= 3"],
